@@ -152,6 +152,17 @@ def deciders(hs, ver, kind):
               'grid': {'meta': {'ver': '3.0'}, 'cols': [{'name': 'x'}], 'rows': [{'x': 'n:1'}]}}[kind]
     doc = {'meta': {'ver': ver}, 'cols': [{'name': 'a'}], 'rows': [{'a': jspell}]}
     out['json_reader'] = dec(lambda: hs.parse(json.dumps(doc), mode=hs.MODE_JSON))
+    # the same value inside a nested grid that is itself labelled `ver`, in an outer 3.0 document: the label that
+    # counts is the one of the grid holding the value
+    out['zinc_reader_nested'] = dec(lambda: hs.parse('ver:"3.0"\na\n<<ver:"%s"\nb\n%s\n>>\n' % (ver, zspell), mode=hs.MODE_ZINC))
+    ndoc = {'meta': {'ver': '3.0'}, 'cols': [{'name': 'a'}],
+            'rows': [{'a': {'meta': {'ver': ver}, 'cols': [{'name': 'b'}], 'rows': [{'b': jspell}]}}]}
+    out['json_reader_nested'] = dec(lambda: hs.parse(json.dumps(ndoc), mode=hs.MODE_JSON))
+    if kind == 'xstr' and out['json_reader_nested'] == 'accept':
+        gn = hs.parse(json.dumps(ndoc), mode=hs.MODE_JSON)
+        if not isinstance(gn[0]['a'][0].get('b'), hs.XStr):
+            out['json_reader_nested'] = 'refuse'
+
     def grid_with_cell_edit():
         g = hs.Grid(version=ver, columns=[('a', [])])
         row = {'a': 'x'}
